@@ -2,9 +2,15 @@
 CONTRACT_MODULES = ['types_rules', 'types_terms', 'simulator_interfaces', 'simulator_ssa', 'simulator_delay', 'simulator_volume', 'simulator_queue', 'random_', 'lineage_model']
 SPEC_MODULES = ['functions']
 LEVEL = 'proof'
-NOT_APPLICABLE = 'under construction'
-ASSUMPTIONS = []
+ASSUMPTIONS = [
+    'exact float equality flag == time is taken as real equality (scheduled times are exact grid elements by the statement)',
+    'rule objects are immutable after initialisation (definitional clauses execS/execP)',
+    '"a dt rule is applied exactly once per elapsed step" follows from the step clauses (rules first; rule_step = 1 exactly after a non-firing step, i.e. on arrival at a grid time) by induction over iterations (argument)',
+    'lineage single-cell simulator loop (SimulateSingleCell) and the deterministic right-hand side are not under contract yet: for lineage models only the registration of rules is proved',
+]
 TRUSTED = []
-EXPLANATION = ''
-LEVEL_TEXT = ''
-LEVEL_NOTE = ''
+EXPLANATION = ('Rule classes against their meaning (additive sum, assignment to species/parameter, Euler ode step), schedule predicate of execute_rule, frequency flags, '
+               'rules applied in declaration order with the interface dt (fold invariant), rules-first and rule-step clauses of the SSA / delay / volume step relations, '
+               'each rule registered exactly once for plain and lineage models.')
+LEVEL_TEXT = 'Deductive proof for all rule sets / states / schedules on the plain stochastic simulators; lineage simulator loop not covered.'
+LEVEL_NOTE = 'See assumptions.'
